@@ -220,10 +220,13 @@ int mzd_to_png(const mzd_t *A, const char *fn, int compression_level, const char
     return 3;
   }
 
+  png_byte *volatile row = NULL;
+
   if (setjmp(png_jmpbuf(png_ptr))) {
     if (verbose) printf("error writing PNG file\n");
     png_destroy_write_struct(&png_ptr, &info_ptr);
     fclose(fh);
+    m4ri_mm_free(row);
     return 1;
   }
 
@@ -258,7 +261,7 @@ int mzd_to_png(const mzd_t *A, const char *fn, int compression_level, const char
   png_set_packswap(png_ptr);
   png_set_invert_mono(png_ptr);
 
-  png_bytep row = m4ri_mm_calloc(sizeof(char), A->ncols / 8 + 8);
+  row = m4ri_mm_calloc(sizeof(char), A->ncols / 8 + 8);
 
   wi_t j   = 0;
   word tmp = 0;
